@@ -42,6 +42,8 @@ pub struct CtlCase {
     pub vanish_data: Vec<u8>,
     /// the client pauses for that many virtual µs once it has sent the first `offset` bytes
     pub gaps: Vec<(usize, u64)>,
+    /// report the handlers' event sequence (`events=`) for the trace acceptance on `Lts.Par`
+    pub events: bool,
 }
 
 fn hdrs_enc(hs: &[(Vec<u8>, Vec<u8>)]) -> String {
@@ -99,14 +101,25 @@ struct Rec {
 
 type Log = Arc<StdMutex<Vec<Rec>>>;
 
+/// what the handler threads did, in real order (the runtime runs one thread at a time): the
+/// labels of `Lts.Par` that are visible from outside (see lean/TinyHttpModel/ParCase.lean)
+static EVENTS: StdMutex<Vec<String>> = StdMutex::new(Vec::new());
+
+fn ev(kind: char, idx: usize) {
+    EVENTS.lock().unwrap().push(format!("{}{}", kind, idx));
+}
+
 /// first half of a handler: ask for the body and read what the script says
 fn read_phase(rq: &mut tiny_http_rt::Request, a: &Action, idx: usize, log: &Log) {
     let mut end: &'static str = "none";
+    ev('b', idx);
     for _ in 1..a.as_reader {
         let _ = rq.as_reader();
     }
     if a.as_reader > 0 {
         log.lock().unwrap()[idx].rend = "pending";
+        let _ = rq.as_reader();
+        ev('c', idx);
         let reader = rq.as_reader();
         if a.zero_read {
             let _ = reader.read(&mut []);
@@ -131,7 +144,11 @@ fn read_phase(rq: &mut tiny_http_rt::Request, a: &Action, idx: usize, log: &Log)
             }
         }
     }
+    if a.as_reader == 0 {
+        ev('c', idx);
+    }
     log.lock().unwrap()[idx].rend = end;
+    ev('r', idx);
 }
 
 /// second half: answer / drop / raw writer / upgrade
@@ -140,7 +157,8 @@ fn finish_phase(rq: tiny_http_rt::Request, a: &Action, idx: usize, log: &Log) {
         if a.delay_ms > 0 {
             stdx::thread::sleep(Duration::from_millis(a.delay_ms));
         }
-        match &a.fin {
+        ev('f', idx);
+        let ok = match &a.fin {
             Finish::Respond(r) => rq.respond(mk_response(r)).is_ok(),
             Finish::RespondFail(r, n) => {
                 let _ = rq.respond(mk_failing_response(r, *n));
@@ -165,7 +183,9 @@ fn finish_phase(rq: tiny_http_rt::Request, a: &Action, idx: usize, log: &Log) {
                 do_ops(&mut *s, ops);
                 true
             }
-        }
+        };
+        ev('d', idx);
+        ok
     }));
     log.lock().unwrap()[idx].result = Some(res.unwrap_or(true));
 }
@@ -217,6 +237,7 @@ pub struct Outcome {
     pub aborted: bool,
     pub writes: Vec<usize>,
     pub holdwire: Option<Vec<u8>>,
+    pub events: Vec<String>,
 }
 
 pub fn execute(c: &CtlCase, cfg: &Config) -> Outcome {
@@ -234,6 +255,7 @@ pub fn execute(c: &CtlCase, cfg: &Config) -> Outcome {
     let vanish_first = c.vanish_first;
     let vanish_data = c.vanish_data.clone();
     let gaps = c.gaps.clone();
+    EVENTS.lock().unwrap().clear();
     let (out, rep) = sched::run(cfg, move || {
         let server = Arc::new(Server::http("127.0.0.1:0").expect("server"));
         let addr = server.server_addr().to_ip().unwrap();
@@ -250,7 +272,7 @@ pub fn execute(c: &CtlCase, cfg: &Config) -> Outcome {
             Err(_) => {
                 // the server stopped accepting: report it as a failed fresh connection
                 return Outcome { delivered: vec![], results: vec![], wire: vec![], eof: true, reset: false, hang: false, fresh_ok: Some(false),
-                                 received: 0, panicked: false, aborted: false, writes: vec![], holdwire: None };
+                                 received: 0, panicked: false, aborted: false, writes: vec![], holdwire: None, events: vec![] };
             }
         };
         let cport = client.local_addr().unwrap().port();
@@ -324,6 +346,7 @@ pub fn execute(c: &CtlCase, cfg: &Config) -> Outcome {
                     log.lock().unwrap().push(Rec { head: head_of(&rq, cport), body: vec![], rend: "none", result: None });
                     let i = idx;
                     idx += 1;
+                    ev('g', i);
                     match &handlers {
                         Handlers::Sequential => handle(rq, act(i), i, log.clone()),
                         Handlers::Threads(delays) => {
@@ -439,6 +462,7 @@ pub fn execute(c: &CtlCase, cfg: &Config) -> Outcome {
             aborted: false,
             writes,
             holdwire,
+            events: EVENTS.lock().unwrap().clone(),
         }
     });
     let mut out = out;
@@ -463,7 +487,7 @@ pub fn line_of(id: usize, c: &CtlCase, o: &Outcome, extra: &str) -> String {
         None => &c.base.bytes[..],
     };
     format!(
-        "conn id={} bytes={} mode={} hold={} segs={} unix=0 script={} {} {} | delivered={} wire={} eof={} results={} hang={} dates={} fresh={} received={} aborted={}{}",
+        "conn id={} bytes={} mode={} hold={} segs={} unix=0 script={} {} {} | delivered={} wire={} eof={} results={} hang={} dates={} fresh={} received={} aborted={}{}{}",
         id,
         hex(sent),
         match c.end {
@@ -493,7 +517,8 @@ pub fn line_of(id: usize, c: &CtlCase, o: &Outcome, extra: &str) -> String {
         match &o.holdwire {
             Some(h) => format!(" holdwire={}", hex(&mask_dates(h).0)),
             None => String::new(),
-        }
+        },
+        if c.events { format!(" events={}", o.events.join(",")) } else { String::new() }
     )
 }
 
